@@ -450,3 +450,82 @@ def rule_G4(ctx):
         elif f["name"].startswith("ok_"):
             r.neg_control(f["name"], not hit)
     return r
+
+
+# --------------------------------------------------------------------------------------- T14
+
+
+def _ord_const(e):
+    d = hirq.path_def(e)
+    if d and (d.startswith("core::cmp::Ordering::") or d.startswith("std::cmp::Ordering::")):
+        return last(d)
+    return None
+
+
+def comparator_findings(F, f):
+    """For every closure handed to sort_by / sort_unstable_by / binary_search_by in f whose body is a match over the pair
+    of its arguments: arms with constant results must be antisymmetric (mirror pattern -> reversed ordering)."""
+    out = []
+    n = 0
+    for x in walk(f["hir"]):
+        if x.get("k") != "MethodCall" or x.get("m") not in ("sort_by", "sort_unstable_by", "binary_search_by", "max_by", "min_by", "sort_by_cached_key"):
+            continue
+        for a in x["args"]:
+            c = peel(a)
+            if c.get("k") != "Closure":
+                continue
+            body = peel(c["body"])
+            if body.get("k") != "Match":
+                continue
+            n += 1
+            rows = []
+            for arm in body["arms"]:
+                for alt in hirq.norm_pat(arm["pat"]):
+                    if alt[0] != "T" or len(alt[1]) != 2:
+                        continue
+                    key = tuple((last(p[1]) if p[0] == "V" else "_") for p in alt[1])
+                    rows.append((key, _ord_const(arm["body"]), arm))
+            seen = {}
+            for key, res, arm in rows:
+                seen.setdefault(key, (res, arm))
+            rev = {"Less": "Greater", "Greater": "Less", "Equal": "Equal"}
+            for key, (res, arm) in seen.items():
+                if res is None or key[0] == key[1]:
+                    continue
+                mk = (key[1], key[0])
+                if mk not in seen:
+                    out.append(("missing-mirror:%s,%s" % key, loc(arm), "comparator arm (%s, %s) => %s has no mirrored arm (%s, %s)" % (key[0], key[1], res, key[1], key[0])))
+                    continue
+                mres = seen[mk][0]
+                if mres is not None and mres != rev[res]:
+                    out.append(("asymmetric:%s,%s" % key, loc(arm), "comparator says (%s, %s) => %s but (%s, %s) => %s: not antisymmetric, so sorting / searching by it is unspecified" % (key[0], key[1], res, key[1], key[0], mres)))
+    return out, n
+
+
+def rule_T14(ctx):
+    F = ctx.F
+    r = RuleResult("T14", "comparator-antisymmetry: every match-based comparator given to a sort or search returns opposite orderings for mirrored arguments")
+    total = 0
+    for f in sorted(F.fns.values(), key=lambda f: f["path"]):
+        if f["crate"] != "garnish_lang_simple_data" or f["kind"] == "Closure":
+            continue
+        fnd, n = comparator_findings(F, f)
+        total += n
+        if n:
+            r.examine((f["path"],), True, {"fn": f["path"], "comparators": n, "violations": len(fnd)})
+        seen = set()
+        for inst, where, msg in fnd:
+            if inst in seen:
+                continue
+            seen.add(inst)
+            r.finding(f["path"], inst, where, msg)
+    r.floor("match-based comparators in the data crate", total, 3)
+    for f in F.fns_in("gfixture::t14::"):
+        if f["kind"] == "Closure":
+            continue
+        fnd, n = comparator_findings(F, f)
+        if f["name"].startswith("ctl_"):
+            r.control(f["name"], bool(fnd))
+        elif f["name"].startswith("ok_"):
+            r.neg_control(f["name"], not fnd)
+    return r
